@@ -31,6 +31,7 @@ pub fn sep_text(s: &str) -> &'static [u8] {
     match s {
         "none" => b"", "sp" => b" ", "tab" => b"\t", "lf" => b"\n", "cr" => b"\r", "crlf" => b"\r\n", "ff" => b"\x0c", "nul" => b"\x00",
         "comment-lf" => b"% a comment ( [ <<\n", "comment-cr" => b"%c\r", "two" => b"  \n",
+        "comments2" => b"%one\r\n\n  % two\n", "comments3" => b"%\r%\n%%\r\n",
         s => panic!("sep {}", s),
     }
 }
